@@ -23,7 +23,26 @@ def build_impl_consistent(chk):
     with vlib.Lock('coq'):
         vlib.sh(['python3', os.path.join(vlib.VERIF, 'tools', 'gen_c11.py'), vlib.REPO])
         vlib.sh(['make', '-s', '-C', vlib.VERIF, 'build/%s_model' % chk.family], timeout=1800)
-    return vlib.build_impl(chk.id.lower(), os.path.join(vlib.VERIF, 'harness', chk.harness), **chk.impl_kwargs)
+    # per-run directory (vlib removes build/impl/<runkey> at the end): quick and thorough runs, or runs against two trees, do not share it
+    return vlib.build_impl(getattr(chk, 'runkey', chk.id.lower()), os.path.join(vlib.VERIF, 'harness', chk.harness), **chk.impl_kwargs)
+
+
+def _sweep_work_dirs():
+    """the harness works in build/work/<id>/fs-<case file name> and removes it when it ends normally; a run that ends in a
+    sanitizer report leaves it behind: remove this process's directories at exit, and anything older than three hours"""
+    import glob, os, shutil, time
+    import vlib
+    for d in glob.glob(os.path.join(vlib.BUILD, 'work', 'c*', 'fs-cases-*')):
+        try:
+            mine = d.endswith('-%d' % os.getpid())
+            if mine or time.time() - os.path.getmtime(d) > 3 * 3600:
+                shutil.rmtree(d, ignore_errors=True)
+        except OSError:
+            pass
+
+
+import atexit
+atexit.register(_sweep_work_dirs)
 
 
 def impl_faults(chk, ctx, cases, tag='oracle'):
@@ -34,7 +53,7 @@ def impl_faults(chk, ctx, cases, tag='oracle'):
     import vlib
     work = os.path.join(vlib.BUILD, 'work', chk.id.lower())
     os.makedirs(work, exist_ok=True)
-    path = os.path.join(work, 'cases-%s.txt' % tag)
+    path = os.path.join(work, 'cases-%s-%d.txt' % (tag, os.getpid()))      # per process, removed by vlib at the end of the run
     with open(path, 'w') as f:
         for c in cases:
             f.write(c + '\n')
@@ -308,8 +327,10 @@ def gen_random_files(rng, n, quiet):
             if rng.random() < 0.3:
                 # sprinkle structure
                 parts = data.split(b'\n')
+                # file b never includes itself: a cyclic %include chain ends only when the descriptors run out (outside the model)
+                inc = b'%include b' if i == 0 else b'%include nosuch'
                 for _k in range(rng.randint(1, 6)):
-                    parts.insert(rng.randint(0, len(parts)), rng.choice([b'begin foo', b'end', b'begin "x y"', b'begin \'', b'%include b',
+                    parts.insert(rng.randint(0, len(parts)), rng.choice([b'begin foo', b'end', b'begin "x y"', b'begin \'', inc,
                                                                          b'begin  bar baz', b' end ', b'begin \\"', b'%', b'%"x']))
                 data = b'\n'.join(parts)
             if rng.random() < 0.15:
@@ -356,13 +377,204 @@ def gen_find(rng, n):
     return cases
 
 
+# ---------------------------------------------------------------------------------------------------------
+# the outside world of the expansion: environment values, HOME, stored values, directory listings, command output
+# ---------------------------------------------------------------------------------------------------------
+CB = CONFIG_BUFF
+# lengths of environment values / HOME / stored values / command outputs: the sizes of the fixed buffers of conf.c
+# (128-byte name buffer, 256-byte first-line and temp-name buffers, PATH_MAX, CONFIG_BUFF) and their neighbours
+LENS_QUICK = [0, 1, 127, 128, 129, 255, 256, 257, 4095, 4096, 4097, CB - 3, CB - 2, CB - 1, CB, CB + 1]
+LENS_MORE = [2, 3, 7, 8, 9, 15, 16, 17, 31, 32, 33, 63, 64, 65, 300, 511, 512, 513, 1023, 1024, 1025, 2047, 2048, 2049, 8191, 8192, 8193,
+             10239, 10240, 10241, 16383, 16384, 16385, CB // 2 - 1, CB // 2, CB // 2 + 1, CB - 20, CB + 2, 2 * CB + 3, 65535, 65536, 65537]
+
+
+def vs(n, pat=None):
+    """value spec of harness/c09.c: n bytes of 'L', or of the repeated pattern"""
+    return '*%d' % n + ('/' + hx(pat) if pat else '')
+
+
+def xop(*parts):
+    """operation x on the concatenation of the parts (bytes/str literals, or ready value specs starting with '*')"""
+    out = []
+    for q in parts:
+        if isinstance(q, str) and q.startswith('*'):
+            out.append(q)
+        elif q not in ('', b''):
+            out.append(hx(q))
+    return 'x' + ('+'.join(out) or '-')
+
+
+# how a long text gets into an expansion: (setup tokens for length n, text that names it, what must run first)
+def sources(n, pat=None):
+    return [
+        (['E%s=%s' % (hx('X'), vs(n, pat))], '$X', []),
+        (['E%s=%s' % (hx('X'), vs(n, pat))], '${X}', []),
+        (['E%s=%s' % (hx('X_1'), vs(n, pat))], '$(X_1)', []),
+        (['E%s=%s' % (hx('HOME'), vs(n, pat or b'/h'))], '~', []),
+        (['E%s=%s' % (hx('X'), vs(n, pat))], '%get(k)', [xop('%put(k $X)')]),          # a stored value of that length
+        (['E%s=%s' % (hx('HOME'), vs(n, pat or b'/h'))], '%get(h)', [xop('%put(h ~)')]),
+    ]
+
+
+# where the long text is used: outside calls, inside the argument of every built-in, in nested calls, in quotes,
+# in a backquote command, doubled (the result reaches the line limit), at the end of an almost full line
+USES = [
+    '{S}', 'a{S}b', '{S}{S}', '{S} {S} {S}', '"{S}"', "'{S}'", '\\{S}',
+    '%put(j {S})', '%put({S} v)', '%get(nosuch {S})', '%get({S})', '%get({S} {S})', '%appname({S})', '%version({S})', '%version ){S})',
+    '%random({S})', '%random(a {S} b)', '%dirscan({S})', '%exec({S})', '`{S}`', '`echo {S}',
+    '%get(a %get(b {S}))', '%get(a %get(b %get(c {S})))', '%put(j %get(nosuch {S}))', '%get(nosuch %appname({S}){S})',
+    '%put(j "{S}")%get(j)%get(j)', "%put(j '{S}')[%get(j)]", '%get(j %get(j %get(j %get(j %get(j {S})))))',
+    '%include {S}', '%preproc {S}', 'begin {S}', '{S}%', '{S}\\', '{S}$', '{S}${', "{S}'", '{S}%get(',
+]
+USES_QUICK = USES
+
+
+def gen_world_values(rng, lens, pats=(None,)):
+    """one expansion per case: every length class x every source x every use (the case line stays short: lengths are given
+    as value specs), and for each length one history that runs all uses against one store"""
+    cases = []
+    for n in lens:
+        for pat in pats:
+            for (setup, name, pre) in sources(n, pat):
+                ops = []
+                for u in USES:
+                    text = u.replace('{S}', name)
+                    cases.append('hist %s i %s f l' % (' '.join(setup), ' '.join(pre + [xop(text)])))
+                    ops.append(xop(text))
+                rng.shuffle(ops)
+                cases.append('hist %s i %s f l' % (' '.join(setup), ' '.join(pre + ops[:40])))
+    return cases
+
+
+def gen_world_limit(rng, lens, fills):
+    """a line that is almost full when the long text arrives: filler of CB-1-m characters, then the source; and the filler
+    inside a call argument"""
+    cases = []
+    for n in lens:
+        for (setup, name, pre) in sources(n)[:5:2]:
+            for m in fills:
+                room = CB - 1 - len(name) - m
+                if room < 0:
+                    continue
+                cases.append('hist %s i %s f l' % (' '.join(setup), ' '.join(pre + [xop(vs(room, b'x'), name)])))
+                room2 = CB - 1 - len('%get(nosuch )') - len(name) - m
+                cases.append('hist %s i %s f l' % (' '.join(setup), ' '.join(pre + [xop('%get(nosuch ', vs(max(0, room2), b'y'), name, ')')])))
+    return cases
+
+
+def gen_world_files(rng, lens):
+    """the same constructs as lines of a config file, through spifconf_parse (the line sits in the parser's own buffer)"""
+    cases = []
+    for n in lens:
+        for (setup, name, pre) in sources(n):
+            lines = [b'%put(k $X)', b'%put(h ~)', b'begin foo']
+            us = list(USES)
+            rng.shuffle(us)
+            for u in us[:14]:
+                lines.append(u.replace('{S}', name).encode('latin1'))
+            lines += [b'end']
+            cases.append('hist %s %s i r%s q f l' % (' '.join(setup), ftok('a', render(lines)), hx(b'foo')))
+    return cases
+
+
+# directories for %dirscan: (spec, ...) - counts x name lengths whose names and blanks add up to less than, exactly and
+# more than CONFIG_BUFF; things that are not regular files
+def dir_specs(tier):
+    specs = ['0x5', '1x1', '1x255', '3x10,s,l,k,p', 's', 'l,p', '200x100', '202x100', '203x100', '210x100',
+             '159x127', '160x127', '161x127', '159x127,1x126', '159x127,1x125', '159x127,1x128', '159x127,1x127,5x3',
+             '79x255', '80x255', '81x255', '128x159', '1024x19', '1023x19,1x18', '1023x19,1x20', '2048x9', '2100x9', '320x63', '36x1']
+    if tier != 'quick':
+        for L in range(3, 256):
+            c = CB // (L + 1)
+            specs += ['%dx%d' % (c, L), '%dx%d' % (c + 1, L)]
+            r = CB - c * (L + 1)            # what the last name must fill to hit CB exactly, one below, one above
+            for d in (-1, 0, 1):
+                ll = r - 1 + d
+                if 4 <= ll <= 255 and ll != L:
+                    specs.append('%dx%d,1x%d' % (c, L, ll))
+                elif c > 1 and 4 <= ll + L + 1 <= 255 and ll + L + 1 != L:
+                    specs.append('%dx%d,1x%d' % (c - 1, L, ll + L + 1))
+    seen, out = set(), []
+    for sp in specs:
+        if sp not in seen:
+            seen.add(sp)
+            out.append(sp)
+    return out
+
+
+DIR_USES = ['%dirscan(d)', '[%dirscan(d)]', '%dirscan(d)%dirscan(d)', '%dirscan(d d)', '%dirscan()', '%dirscan(nosuch)', '%dirscan( d )',
+            '%dirscan("d")', "%put(k '%dirscan(d)')%get(k)%get(k)", '%put(k %dirscan(d))', '%get(nosuch %dirscan(d))',
+            '%random(%dirscan(d))', '%get(%dirscan(d))', '%dirscan(%dirscan(d))', '`%dirscan(d)`', '%dirscan(d/subdir)', '%dirscan(.)']
+
+
+def gen_world_dirs(rng, tier):
+    cases = []
+    for sp in dir_specs(tier):
+        head = 'hist Dd=%s i ' % sp
+        cases.append(head + 'sd f l')
+        if tier == 'quick' or sp.count(',') or rng.random() < 0.1:
+            cases.append(head + ' '.join(['sd'] + [xop(u) for u in DIR_USES]) + ' f l')
+            cases.append('hist Dd=%s %s i r%s q f l' % (sp, ftok('a', render([b'begin foo'] + [u.encode() for u in DIR_USES] + [b'end'])), hx(b'foo')))
+    return cases
+
+
+OUT_PATS = [b'o', b'ab  c\n', b' ', b'\n', b'a\x00b', b'`%exec(x)$X~\\', b'x' * 100 + b'\n']
+
+
+def gen_world_exec(rng, lens, tier):
+    """%exec and backquotes with the intercepted command "printing" outputs of every length class; commands around the
+    length at which builtin_exec refuses; a temporary directory that does not exist"""
+    cases = []
+    uses = ['%exec(echo)', 'a`echo`b', '`echo``echo`', '%put(k `echo`)%get(k)', '%get(nosuch %exec(echo))', '`%exec(echo)`',
+            '%exec(%exec(echo))', '%exec()', '``', '`', '%exec(echo', "'`echo`'", '"`echo`"', '%exec(echo)%exec(echo)%exec(echo)']
+    for n in lens:
+        for pat in (OUT_PATS if tier != 'quick' else OUT_PATS[:5]):
+            cases.append('hist O%s i %s f l' % (vs(n, pat), ' '.join(xop(u) for u in uses)))
+        cases.append('hist O%s i %s f l' % (vs(n), xop('`echo`')))
+        cases.append('hist O%s i %s f l' % (vs(n), xop('%exec(echo)')))
+    cases.append('hist i %s f l' % ' '.join(xop(u) for u in uses))
+    cases.append('hist T O%s i %s f l' % (vs(10), ' '.join(xop(u) for u in uses)))
+    cases.append('hist T i %s f l' % xop('%exec(echo)'))
+    cases.append('hist i %s f l' % xop('%exec(echo)'))
+    cases.append('hist i %s f l' % xop('`echo`'))
+    # the name of the temporary directory around the 256-byte name buffer of spiftool_temp_file, and far beyond it
+    pre = ftok('p', render([b'%preproc cat', b'never read'])) + ' '
+    for tl in [200, 233, 234, 235, 236, 237, 238, 239, 240, 254, 255, 256, 257, 300, 4095, 4096, 4097, CB + 1]:
+        cases.append('hist P%d O%s %si %s %s pp f l' % (tl, vs(5), pre, xop('%exec(echo)'), xop('a`echo`b')))
+    # the command length at which builtin_exec gives up depends on the length of the temporary file's name
+    step = 1 if tier != 'quick' else 9
+    for plen in list(range(CB - 130, CB - 8, step)) + [CB - 8, CB - 9]:
+        cases.append('hist O%s i %s f l' % (vs(3), xop('%exec(', vs(plen, b'c'), ')')))
+    for plen in [CB - 130, CB - 60, CB - 12, CB - 3]:
+        cases.append('hist O%s i %s f l' % (vs(3), xop('`', vs(plen, b'c'), '`')))
+        cases.append('hist O%s i %s f l' % (vs(3), xop('`', vs(plen, b'c'))))
+    return cases
+
+
+def gen_world(rng, tier):
+    quick = tier == 'quick'
+    lens = LENS_QUICK if quick else sorted(set(LENS_QUICK + LENS_MORE))
+    cases = []
+    cases += gen_world_values(rng, lens, pats=(None,) if quick else (None, b'a b', b"q'\"\\ "))
+    cases += gen_world_limit(rng, [1, 2, 128, 4096, CB - 2] if quick else lens, [0, 1, 2, 3] if quick else [0, 1, 2, 3, 4, 5, 8, 127, 128, 129])
+    cases += gen_world_files(rng, lens)
+    cases += gen_world_dirs(rng, tier)
+    cases += gen_world_exec(rng, lens, tier)
+    return cases
+
+
 def text_of_case(case):
-    """all file contents of a hist case (for the spawn oracle)"""
+    """all file contents and directly expanded texts of a hist case (for the spawn oracle)"""
     out = b''
     for t in case.split(' '):
         if t.startswith('F') and '=' in t:
             h = t.split('=', 1)[1]
             out += (b'' if h == '-' else bytes.fromhex(h)) + b'\n'
+        elif t.startswith('x'):
+            for part in t[1:].split('+'):
+                if part and part != '-' and not part.startswith('*'):
+                    out += bytes.fromhex(part)
+            out += b'\n'
     return out
 
 
